@@ -103,6 +103,13 @@ Section EquivModel.
   Definition kpca_matrix (n : nat) (kern : mat F) : mat F :=
     center_matrix n (kernel_matrix kern).
 
+  (* NOT the shipped code: a centerMatrix with an early-out "skip the passes when every column mean
+     passes the test `small`" (regression model for a class of edits: with an exact-zero test the
+     early-out is harmless, with an ABSOLUTE threshold - Eigen's isZero() compares against 1e-12 - it
+     breaks scale equivariance; Equiv_Proof_Scale.v) *)
+  Definition center_matrix_skip (small : F -> bool) (n : nat) (M : mat F) : mat F :=
+    if forallb (fun j => small (colmean n M j)) (seq 0 n) then M else center_matrix n M.
+
   (* methods/isomap.hpp embed() after the shortest-path stage (tree as of F23):
        S = G.array().square();  S = (S + S^T)/2;  centerMatrix(S);  S *= -0.5
      G = table of geodesic distances (C04's subject; not necessarily symmetric) *)
